@@ -276,6 +276,7 @@ func (d *driver) load(li *logInst, keepCacheOf int) error {
 	go func() {
 		d.w.mu.Lock()
 		li.seqGid = goid()
+		li.in.seqGid = li.seqGid
 		d.seqs[li.seqGid] = li
 		d.w.mu.Unlock()
 		close(started)
@@ -375,6 +376,7 @@ func (d *driver) submitOpt(li *logInst, e *ctlog.PendingLogEntry, low bool, doSy
 	w := d.w
 	w.mu.Lock()
 	li.in.buf = &bytes.Buffer{}
+	li.in.subGid = goid()
 	li.in.subFaults = nil
 	wid := d.nextWid
 	d.nextWid++
@@ -507,11 +509,18 @@ func b2i(b bool) string {
 
 // sync waits until no waiter has returned for a short while, then writes the acknowledgements
 // that became available, sorted (the comparison treats a segment's acks as a set).
-func (d *driver) sync() {
+func (d *driver) sync() { d.syncQuiet(4) }
+
+// finalSync: the last flush of a history waits much longer for late waiter goroutines (on a loaded
+// machine an acknowledgement that the model determines may take tens of milliseconds to arrive, and
+// after the end of the history there is no later segment it could still show up in)
+func (d *driver) finalSync() { d.syncQuiet(50) }
+
+func (d *driver) syncQuiet(rounds int) {
 	w := d.w
 	quiet := 0
 	last := -1
-	for quiet < 4 {
+	for quiet < rounds {
 		time.Sleep(3 * time.Millisecond)
 		w.mu.Lock()
 		n := 0
@@ -676,6 +685,9 @@ func main() {
 		d.enum = h + *enumBase
 		fmt.Fprintf(&all, "ev|reset|%d|%s\n", hseed, kind)
 		runScenario(d, kind)
+		if kind != "storm" {
+			d.finalSync()
+		}
 		d.checkDups()
 		d.w.mon.final(d.w)
 		d.w.dump(d.logID())
